@@ -268,7 +268,7 @@ def make_case(rng, kind):
 
 def gen(rng, tier):
     cases = []
-    k = 1 if tier == "quick" else 10
+    k = 1 if tier == "quick" else 25
     for kind, n in (("ok", 330), ("repaired", 60), ("badtopic", 90), ("badpart", 110), ("none", 10)):
         for _ in range(n * k):
             cases.append(make_case(rng, kind))
